@@ -761,6 +761,11 @@ static void run_plan(const RunSpec &spec)
 		R.nkeys = got;
 	}
 	memset(g_val_freed, 0, sizeof g_val_freed);
+	if (g_trace) {
+		std::string u;
+		for (int k = 0; k < R.nkeys; k++) { char b[16]; snprintf(b, sizeof b, " %d=\"", k); u += b; u += printable(kstr(k)); u += "\""; }
+		TRACE("%s, universe:%s", impl_names[R.impl], u.c_str());
+	}
 
 	switch (R.impl) {
 	case IMPL_HASH: { int64_t o = p.get("order", 0); if (o < 0) o = 0; if (o > 4096) o = 4096; R.map = qb_hashtable_create((size_t)o); break; }
